@@ -1,7 +1,7 @@
 #!/bin/bash
-# seed_pipeline.sh <Cnn> [srcdir] : validate a seeded change, run the property's check against the patched scratch worktree
+# seed_pipeline.sh <Cnn> [srcdir] [name] : validate a seeded change, run the property's check against the patched scratch worktree
 # (quick, then thorough if quick misses), store everything under /verif/seeded/<Cnn>/, remove the scratch worktree.
-id=$1; src=${2:-/tmp/seed-$id-out}; out=/verif/seeded/$id; log=/tmp/pipe-$id.log
+id=$1; src=${2:-/tmp/seed-$id-out}; name=${3:-$id}; out=/verif/seeded/$name; log=/tmp/pipe-$name.log
 mkdir -p $out
 {
 /verif/tools/validate_seed.sh $id $src; v=$?
